@@ -36,11 +36,22 @@ def get_inherited(t: Type) -> Type:
     else:
         return Any  # type: ignore
 
-    r = base_classes[0]  # type: ignore
+    # `Generic[...]` only declares the class's own type variables, and a plain class has none
+    # to hand on: the type inherited from is the first parameterized base that is a real class.
+    generic_bases = [
+        b
+        for b in base_classes  # type: ignore
+        if get_origin(b) is not None and get_origin(b) is not typing.Generic
+    ]
+    if len(generic_bases) == 0:
+        return Any  # type: ignore
+    r = generic_bases[0]
 
     g_args = get_args(t)
     if len(g_args) > 0:
-        mapping = {a.__name__: v for a, v in zip(r.__parameters__, g_args)}
+        # The arguments of `t` stand for the type variables of its own class, in their order.
+        own_parameters = getattr(get_origin(t), "__parameters__", ())
+        mapping = {a.__name__: v for a, v in zip(own_parameters, g_args)}
 
         r_base = get_origin(r)
         assert r_base is not None, "Internal error"
